@@ -364,9 +364,18 @@ Definition prefix_ok (prefix : option str) : Prop := match prefix with Some p =>
 Definition common_names (labels : option (list (str * str))) : list str :=
   match labels with Some l => map fst l | None => [] end.
 
+Lemma existsb_reserved (l : list (str * str)) :
+  existsb (fun kv => str_eqb reserved_le (fst kv)) l = true <-> In reserved_le (map fst l).
+Proof.
+  rewrite existsb_exists. split.
+  - intros (kv & Hkv & E). apply str_eqb_eq in E. rewrite E. apply in_map. exact Hkv.
+  - intros H. apply in_map_iff in H as (kv & E & Hkv). exists kv. split; auto. rewrite E. apply str_eqb_eq. reflexivity.
+Qed.
+
+(* after the reserved-le repair: the reserved histogram label is refused as a common label *)
 Theorem reg_new_custom_ok_iff {C} prefix labels :
   (exists r : regcore C, reg_new_custom prefix labels = Ok r) <->
-  prefix_ok prefix /\ Forall valid_label (common_names labels).
+  prefix_ok prefix /\ Forall valid_label (common_names labels) /\ ~ In reserved_le (common_names labels).
 Proof.
   unfold reg_new_custom, prefix_ok, common_names, valid_metric, valid_label.
   assert (HL : forall l : list (str * str), forallb (fun kv => is_valid_label_name (fst kv)) l = true
@@ -374,20 +383,29 @@ Proof.
   { intros l. rewrite forallb_forall, Forall_forall. split.
     - intros H x Hx. apply in_map_iff in Hx as (kv & <- & Hkv). auto.
     - intros H kv Hkv. apply H. apply in_map. auto. }
-  destruct prefix as [p|]; destruct labels as [l|].
-  - destruct (is_valid_metric_name p) eqn:Ep.
-    + destruct p as [|c p]; [discriminate|]. cbn [is_nil orb negb].
-      destruct (forallb (fun kv => is_valid_label_name (fst kv)) l) eqn:El; cbn [negb].
-      * split; [intros _; split; auto; apply HL; auto|eauto].
-      * split; [intros [r H]; discriminate|]. intros [_ H]. apply HL in H. congruence.
-    + rewrite orb_true_r. cbn [orb]. split; [intros [r H]; discriminate|intros [H _]; discriminate].
-  - destruct (is_valid_metric_name p) eqn:Ep.
-    + destruct p as [|c p]; [discriminate|]. cbn [is_nil orb negb]. split; eauto.
-    + rewrite orb_true_r. cbn [orb]. split; [intros [r H]; discriminate|intros [H _]; discriminate].
-  - cbn [orb]. destruct (forallb (fun kv => is_valid_label_name (fst kv)) l) eqn:El; cbn [negb].
-    + split; [intros _; split; auto; apply HL; auto|eauto].
-    + split; [intros [r H]; discriminate|]. intros [_ H]. apply HL in H. congruence.
-  - cbn [orb]. split; eauto.
+  assert (LB : forall l : list (str * str),
+             (negb (forallb (fun kv => is_valid_label_name (fst kv)) l) || existsb (fun kv => str_eqb reserved_le (fst kv)) l) = false
+             <-> Forall (fun s => is_valid_label_name s = true) (map fst l) /\ ~ In reserved_le (map fst l)).
+  { intros l. rewrite orb_false_iff, negb_false_iff, HL. rewrite <- existsb_reserved.
+    destruct (existsb (fun kv => str_eqb reserved_le (fst kv)) l).
+    - split; [intros [_ B]; discriminate|intros [_ B]; exfalso; apply B; reflexivity].
+    - split; intros [A _]; (split; [exact A|]); [intros X; discriminate|reflexivity]. }
+  set (PB := match prefix with Some p => is_nil p || negb (is_valid_metric_name p) | None => false end).
+  set (LBv := match labels with
+              | Some l => negb (forallb (fun kv => is_valid_label_name (fst kv)) l) || existsb (fun kv => str_eqb reserved_le (fst kv)) l
+              | None => false end).
+  assert (HP : PB = false <-> match prefix with Some p => is_valid_metric_name p = true | None => True end).
+  { unfold PB. destruct prefix as [p|]; [|tauto]. destruct (is_valid_metric_name p) eqn:Ep.
+    - destruct p as [|c p]; [discriminate|]. cbn. tauto.
+    - rewrite orb_true_r. split; discriminate. }
+  assert (HLb : LBv = false <-> Forall (fun s => is_valid_label_name s = true) (match labels with Some l => map fst l | None => [] end)
+                              /\ ~ In reserved_le (match labels with Some l => map fst l | None => [] end)).
+  { unfold LBv. destruct labels as [l|]; [apply LB|]. split; [intros _; split; [constructor|intros []]|reflexivity]. }
+  destruct PB eqn:E1; cbn [orb].
+  - split; [intros [r H]; discriminate|]. intros [H _]. apply HP in H. discriminate.
+  - destruct LBv eqn:E2.
+    + split; [intros [r H]; discriminate|]. intros [_ H]. apply HLb in H. discriminate.
+    + split; [|eauto]. intros _. split; [apply HP; reflexivity|apply HLb; reflexivity].
 Qed.
 
 Lemma reg_new_custom_fields {C} prefix labels (r : regcore C) :
@@ -622,7 +640,7 @@ Theorem gather_names_wf {C} prefix labels collected :
   Forall (fun mf => exists d, lib_family d mf /\ @admitted C prefix labels d) collected ->
   Forall family_wf (gather_families prefix labels collected).
 Proof.
-  intros Hr ND H. apply reg_new_custom_ok_iff in Hr as [Hp Hl]. apply gather_names_wf_gen; auto.
+  intros Hr ND H. apply reg_new_custom_ok_iff in Hr as [Hp [Hl _]]. apply gather_names_wf_gen; auto.
   - split; auto. unfold common_names, map_like in *. destruct labels; auto; constructor.
   - eapply Forall_impl; [|exact H]. intros mf (d & Hf & Ha). exists d. apply lib_family_of_desc in Hf as [W F].
     split; auto. split; auto. eapply admitted_clear; eauto.
